@@ -733,6 +733,7 @@ package mqtt
 //@ pred rdmaps(c): forall(k, k >= 32768 && k < 65536 && st_has(c.persistence, k) ==> st_len(c.persistence, k) >= 2) && (st_has(c.persistence, 0) ==> st_len(c.persistence, 0) <= 65535)
 //@ func mqtt.(*Client).readSlices -> message, topic, err
 // a packet is skipped only when its type is one the broker may send after CONNACK and its handler accepted it
+//@ at[C13,C04] call Discard#3: assert head / 16 == 3 ==> qos2dup(c, head)
 //@ at[C13] call Discard#3: assert head / 16 == 3 || head / 16 == 4 || head / 16 == 5 || head / 16 == 6 || head / 16 == 7 || head / 16 == 9 || head / 16 == 11 || head / 16 == 13
 // only the retransmission of a message already taken is skipped: every other failure of onPUBLISH ends the
 // connection, and that one does not
@@ -801,6 +802,7 @@ package mqtt
 //@ ensures[C12] len(r.onlineSig) == 1 && !closed(qat(r.onlineSig, 0)) && len(r.offlineSig) == 1 && closed(qat(r.offlineSig, 0))
 //@ ensures[C10,C12] rdinv(r) || r.persistence == nil
 //@ ensures r.ReconnectWaitMin >= 0 && r.ReconnectWaitMax >= r.ReconnectWaitMin
+//@ ensures[C10] r.ReconnectWaitMin == ite(old(config.ReconnectWaitMin) == 0, 1000000000, ite(old(config.ReconnectWaitMin) < 0, 0, old(config.ReconnectWaitMin))) && r.ReconnectWaitMax == ite(old(config.ReconnectWaitMax) < r.ReconnectWaitMin, r.ReconnectWaitMin, old(config.ReconnectWaitMax))
 
 // publish (QoS 0): denied arguments leave no trace; success means the whole PUBLISH went to one connection.
 //@ func mqtt.(*Client).publish -> err
